@@ -100,7 +100,7 @@ Fixpoint remote_fn (entries : list (str * option str)) (k : nat) (p : str) : opt
   end.
 
 Definition interf_at (l : list (Z * str)) (k : nat) : option str :=
-  match find (fun e => fst e =? Z.of_nat k) l with
+  match find (fun e => fst e =? Z.of_nat k) (rev l) with   (* the last entry for k wins, as in the harness *)
   | Some e => Some (snd e)
   | None => None
   end.
